@@ -77,14 +77,15 @@ def status_rule(ctx, r):
     if node is None:
         r.bad("run|shape", "anchor-missing: rg::run does not end in Ok(<status expression>)", fn=run)
         return
-    at = H.decision_atoms(node)
+    env = H.NoInline(H.LetEnv(run.hir), {"matched"})
+    at = H.decision_atoms(node, env)
     want_atoms = {"matched", "args.quiet()", "rg::messages::errored()"}
     if set(at) != want_atoms:
         r.bad("run|atoms", "exit status depends on %s, expected exactly %s" % (sorted(at), sorted(want_atoms)), fn=run)
         return
     for bits in itertools.product([False, True], repeat=3):
         val = dict(zip(at, bits))
-        leaf = H.decide(node, val)
+        leaf = H.decide(node, val, env)
         m, q, e = val["matched"], val["args.quiet()"], val["rg::messages::errored()"]
         want = 0 if (m and (q or not e)) else (2 if e else 1)
         key = "run|matched=%d,quiet=%d,errored=%d" % (m, q, e)
@@ -193,6 +194,46 @@ def matched_rule(ctx, r):
                 else:
                     r.bad("search_parallel|store", "matched.store(..) at %s is not guarded by has_match()" % c.loc,
                           fn=clo, loc=c.loc)
+                # ... and on EVERY path once a file matched: whichever way the closure returns afterwards
+                # (including the broken-pipe Quit), the shared flag must already be set
+                if swc:
+                    esc = C.all_paths_pass(clo, [swc[0][1][1]], {c.bb}, clo.return_blocks())
+                    if esc:
+                        r.bad("search_parallel|store-all-paths", "after has_match() == true the worker can return (bb%d, %s) without "
+                              "setting the shared `matched` flag: the exit status would be 1 although a match was found"
+                              % (esc[0], clo.blocks[esc[0]]["term"].get("loc")), fn=clo, loc=c.loc, construct="matched")
+                    else:
+                        r.ok("search_parallel|store-all-paths", "has_match() ⇒ matched.store(true) on every path to return", fn=clo)
+    # every successfully searched file is asked whether it matched before the worker returns (on any path,
+    # including the broken-pipe Quit): otherwise a match whose output hit a closed pipe is forgotten
+    for clo in facts.closures_of("rg::search_parallel"):
+        ss = clo.calls_to(SEARCH)
+        hm = clo.calls_to(HAS)
+        if not ss:
+            continue
+        if not hm:
+            r.bad("search_parallel|consulted", "the parallel worker never asks the search result whether it matched", fn=clo)
+            continue
+        sx = seed_after_call(clo, ss[0], V("Ok", None))
+        seen, work, leak = set(), [ss[0].target], None
+        hb = {c.bb for c in hm}
+        while work:
+            b = work.pop()
+            if b in seen or b in hb or b not in sx.exec_blocks:
+                continue
+            seen.add(b)
+            if clo.blocks[b]["term"]["k"] == "return":
+                leak = b
+                break
+            for n in clo.succ(b):
+                if (b, n) in sx.exec_edges:
+                    work.append(n)
+        if leak is not None:
+            r.bad("search_parallel|consulted", "after a successful search the worker can return without consulting has_match() "
+                  "(e.g. on the broken-pipe Quit): a match is not recorded and the exit status becomes 1", fn=clo, loc=ss[0].loc,
+                  construct="matched")
+        else:
+            r.ok("search_parallel|consulted", "Ok(search) ⇒ has_match() consulted on every path to return", fn=clo)
     for name in ("rg::files", "rg::files_parallel"):
         f = facts.fn(name)
         r.ok("%s|listing" % name, "listing mode: matched means 'a haystack was listed'", nontrivial=False, fn=f)
